@@ -22,6 +22,9 @@ const ID = "C19"
 type env struct {
 	service *core.Service
 	broker  *push.Broker
+	// scoped: every request has a context of its own that ends when the request has been answered, as the
+	// contexts of the net/http and mock handlers do
+	scoped bool
 }
 
 func newEnv() *env {
@@ -29,7 +32,7 @@ func newEnv() *env {
 	broker := push.NewBroker(service)
 	broker.Timeout = time.Second        // the poll time-out: eager (may strike at any scheduling point)
 	broker.HeartBeat = 1000 * time.Second // fires only when the client has really stopped polling
-	return &env{service, broker}
+	return &env{service: service, broker: broker}
 }
 
 func (e *env) ctxFor(id string) context.Context {
@@ -42,6 +45,11 @@ func (e *env) call(name string, args ...interface{}) []reflect.Value {
 	in := make([]reflect.Value, len(args))
 	for i, a := range args {
 		in[i] = reflect.ValueOf(a)
+	}
+	if e.scoped {
+		ctx, cancel := vs.WithCancel(args[0].(context.Context))
+		in[0] = reflect.ValueOf(ctx)
+		defer cancel() // the request has been answered: its context ends
 	}
 	return e.service.Get(name).Func().Call(in)
 }
@@ -80,6 +88,7 @@ type spec struct {
 	polls      int
 	unsub      bool // a thread unsubscribes and re-subscribes c1 from t during the traffic
 	quick, tho int
+	scoped     bool // request-scoped contexts (see env.scoped)
 }
 
 func brokerScenario(sp spec) h.Scenario {
@@ -93,6 +102,7 @@ func brokerScenario(sp spec) h.Scenario {
 		var pollTimedOut vs.Var[bool]
 		s := vs.Run(ch, vs.Config{Trace: trace, EagerHorizon: time.Second}, func() {
 			e := newEnv()
+			e.scoped = sp.scoped
 			e.broker.OnUnsubscribe = func(ctx context.Context, id, topic string, ms []push.Message) {
 				for _, m := range ms {
 					dropped = append(dropped, fmt.Sprint(m.Data))
@@ -274,12 +284,14 @@ func prosumerScenario() h.Scenario {
 
 func main() {
 	specs := []spec{
-		{"unicast/1pub-2msg/2polls", []pubSpec{{"unicast", []string{"a1", "a2"}}}, 2, false, 2, 3},
-		{"unicast/2pub-1msg/2polls", []pubSpec{{"unicast", []string{"a1"}}, {"unicast", []string{"b1"}}}, 2, false, 2, 3},
-		{"broadcast/1pub-2msg/2polls", []pubSpec{{"broadcast", []string{"a1", "a2"}}}, 2, false, 2, 3},
-		{"multicast/1pub-2msg/1poll", []pubSpec{{"multicast", []string{"a1", "a2"}}}, 1, false, 2, 3},
-		{"unicast/1pub-2msg/1poll/resubscribe", []pubSpec{{"unicast", []string{"a1", "a2"}}}, 1, true, 2, 3},
-		{"unicast/1pub-1msg/3polls", []pubSpec{{"unicast", []string{"a1"}}}, 3, false, 2, 3},
+		{"unicast/1pub-2msg/2polls", []pubSpec{{"unicast", []string{"a1", "a2"}}}, 2, false, 2, 3, false},
+		{"unicast/2pub-1msg/2polls", []pubSpec{{"unicast", []string{"a1"}}, {"unicast", []string{"b1"}}}, 2, false, 2, 3, false},
+		{"broadcast/1pub-2msg/2polls", []pubSpec{{"broadcast", []string{"a1", "a2"}}}, 2, false, 2, 3, false},
+		{"multicast/1pub-2msg/1poll", []pubSpec{{"multicast", []string{"a1", "a2"}}}, 1, false, 2, 3, false},
+		{"unicast/1pub-2msg/1poll/resubscribe", []pubSpec{{"unicast", []string{"a1", "a2"}}}, 1, true, 2, 3, false},
+		{"unicast/1pub-1msg/3polls", []pubSpec{{"unicast", []string{"a1"}}}, 3, false, 2, 3, false},
+		{"unicast/1pub-2msg/2polls/request-scoped-contexts", []pubSpec{{"unicast", []string{"a1", "a2"}}}, 2, false, 2, 3, true},
+		{"unicast/2pub-1msg/2polls/request-scoped-contexts", []pubSpec{{"unicast", []string{"a1"}}, {"unicast", []string{"b1"}}}, 2, false, 2, 3, true},
 	}
 	var scen []h.Scenario
 	for _, sp := range specs {
